@@ -212,6 +212,27 @@ theorem hook_complete (t : Trigger) (ord : Name → List FName) (s : TrainState)
       rw [saveOps_congr hfr] at h1
       exact ⟨st, by simp only [runAll?, hrun]; exact h1, h2⟩
 
+/-! ### `load_model` does not matter once the run directory designates a snapshot -/
+
+theorem resumeWith_loaded {fs : FS} {s : TrainState} (lm : LoadModel) (h : resume fs = .loaded s) :
+    resumeWith lm fs = .loaded s := by simp [resumeWith, h]
+
+theorem resumeWith_congr {a b : FS} (lm : LoadModel) (h : resume a = resume b) :
+    resumeWith lm a = resumeWith lm b := by simp [resumeWith, h]
+
+theorem resumeWith_error_iff (lm : LoadModel) (fs : FS) :
+    resumeWith lm fs = .error ↔ resume fs = .error := by
+  unfold resumeWith
+  cases resume fs <;> cases lm <;> simp
+
+theorem resumeWith_unset (fs : FS) :
+    resumeWith .unset fs = (match resume fs with
+      | .fresh => .fresh
+      | .loaded s => .loaded s
+      | .error => .error) := by
+  unfold resumeWith
+  cases resume fs <;> rfl
+
 /-! ### histories -/
 
 /-- the live snapshot is not ahead of the running trainer, and at equal step counters it IS the
@@ -226,8 +247,8 @@ structure SysInv (sys : Sys) : Prop where
 
 theorem sysInv_empty : SysInv ⟨[], none⟩ := ⟨fsInv_nil, by intro s h; simp at h⟩
 
-theorem event_inv (init : TrainState) (e : Event) (sys : Sys) (hi : SysInv sys) :
-    SysInv (e.apply init sys) := by
+theorem event_inv (init : TrainState) (lm : LoadModel) (e : Event) (sys : Sys) (hi : SysInv sys) :
+    SysInv (e.apply init lm sys) := by
   obtain ⟨hfs, hmem⟩ := hi
   cases e with
   | start =>
@@ -297,15 +318,15 @@ theorem event_inv (init : TrainState) (e : Event) (sys : Sys) (hi : SysInv sys) 
   | kill =>
     exact ⟨hfs, by intro s hs; simp [Event.apply] at hs⟩
 
-theorem history_inv (init : TrainState) (h : List Event) (sys : Sys) (hi : SysInv sys) :
-    SysInv (runHistory init h sys) := by
+theorem history_inv (init : TrainState) (lm : LoadModel) (h : List Event) (sys : Sys)
+    (hi : SysInv sys) : SysInv (runHistory init lm h sys) := by
   induction h generalizing sys with
   | nil => exact hi
-  | cons e r ih => exact ih _ (event_inv init e sys hi)
+  | cons e r ih => exact ih _ (event_inv init lm e sys hi)
 
 /-- a single event never makes the run directory fall back to `fresh` -/
-theorem event_not_fresh (init : TrainState) (e : Event) (sys : Sys) (hi : SysInv sys)
-    (hn : resume sys.fs ≠ .fresh) : resume (e.apply init sys).fs ≠ .fresh := by
+theorem event_not_fresh (init : TrainState) (lm : LoadModel) (e : Event) (sys : Sys)
+    (hi : SysInv sys) (hn : resume sys.fs ≠ .fresh) : resume (e.apply init lm sys).fs ≠ .fresh := by
   have keep : ∀ (t : Trigger) (ord : Name → List FName) (s0 : TrainState) (k : Nat),
       resume (runPrefix k (hookOps t ord s0 sys.fs) sys.fs) ≠ .fresh := by
     intro t ord s0 k
@@ -336,10 +357,11 @@ theorem event_not_fresh (init : TrainState) (e : Event) (sys : Sys) (hi : SysInv
     · exact hn
   | kill => exact hn
 
-theorem history_not_fresh (init : TrainState) (h : List Event) (sys : Sys) (hi : SysInv sys)
-    (hn : resume sys.fs ≠ .fresh) : resume (runHistory init h sys).fs ≠ .fresh := by
+theorem history_not_fresh (init : TrainState) (lm : LoadModel) (h : List Event) (sys : Sys)
+    (hi : SysInv sys) (hn : resume sys.fs ≠ .fresh) :
+    resume (runHistory init lm h sys).fs ≠ .fresh := by
   induction h generalizing sys with
   | nil => exact hn
-  | cons e r ih => exact ih _ (event_inv init e sys hi) (event_not_fresh init e sys hi hn)
+  | cons e r ih => exact ih _ (event_inv init lm e sys hi) (event_not_fresh init lm e sys hi hn)
 
 end Tak.Snapshot
